@@ -1593,6 +1593,289 @@ def inline_new_constants(trees, stats):
   stats['constants_inlined'] = n_sub[0]
 
 
+# ---------------------------------------------------------------- R6
+def absorb_helper_classes(tree, rel, stats):
+  """A new private class (not in the reference tree) that is instantiated exactly once, by `self.<holder> = _K(args)` in the constructor of one
+  owner class, and only reached as `self.<holder>.<member>` from that owner, is absorbed: its constructor statements run at the place of the
+  instantiation on the owner itself, its methods become private methods of the owner (then inlined like any new helper), and
+  `self.<holder>.<x>` becomes `self.<x>` ("extract class" undone).  Attribute and method names must not collide with the owner's."""
+  b = load_baseline()
+  known_cls = set(b.get('class_inventory', {}).get(rel, []))
+  if not b.get('class_inventory'):
+    return
+  for K in [s_ for s_ in list(tree.body) if isinstance(s_, ast.ClassDef)]:
+    if K.name in known_cls or not K.name.startswith('_') or K.decorator_list or K.keywords:
+      continue
+    if any(not (isinstance(x, ast.Name) and x.id == 'object') for x in K.bases):
+      continue
+    members = [m for m in K.body if not (isinstance(m, ast.Expr) and isinstance(m.value, ast.Constant))]
+    if not members or not all(isinstance(m, FN) and _plain(m) and not m.decorator_list for m in members):
+      continue
+    kinit = [m for m in members if m.name == '__init__']
+    kmeths = [m for m in members if m.name != '__init__']
+    if any(m.name.startswith('__') for m in kmeths):
+      continue
+    # the single instantiation
+    uses = [n for n in ast.walk(tree) if isinstance(n, ast.Name) and n.id == K.name and not any(n is x for x in ast.walk(K))]
+    if len(uses) != 1:
+      continue
+    site = owner = ometh = None
+    for C in [s_ for s_ in ast.walk(tree) if isinstance(s_, ast.ClassDef) and s_ is not K]:
+      for m in C.body:
+        if isinstance(m, FN) and m.name == '__init__':
+          for st in m.body:
+            if (isinstance(st, ast.Assign) and len(st.targets) == 1 and isinstance(st.targets[0], ast.Attribute) and isinstance(st.targets[0].value, ast.Name)
+                and st.targets[0].value.id == 'self' and isinstance(st.value, ast.Call) and st.value.func is uses[0]):
+              site, owner, ometh = st, C, m
+    if site is None:
+      continue
+    holder = site.targets[0].attr
+    # every other mention of the holder is  self.<holder>.<member>  inside the owner
+    ok = True
+    refs = []
+    for n in ast.walk(tree):
+      if isinstance(n, ast.Attribute) and n.attr == holder and n is not site.targets[0]:
+        ok = False       # a bare read of the holder object (passed around, compared, ...)
+    parents = {}
+    for n in ast.walk(owner):
+      for ch in ast.iter_child_nodes(n):
+        parents[id(ch)] = n
+    ok = True
+    for n in ast.walk(tree):
+      if isinstance(n, ast.Attribute) and n.attr == holder and n is not site.targets[0]:
+        par = parents.get(id(n))
+        if not (isinstance(n.value, ast.Name) and n.value.id == 'self' and isinstance(par, ast.Attribute) and par.value is n):
+          ok = False
+        else:
+          refs.append((par, n))
+    if not ok:
+      continue
+    # names: attributes written by K, methods of K -- none may exist on the owner (or its textual ancestors in this module) already
+    kattrs = set(x.attr for m in members for x in ast.walk(m) if isinstance(x, ast.Attribute) and isinstance(x.value, ast.Name) and x.value.id == 'self')
+    oattrs = set(x.attr for x in ast.walk(owner) if isinstance(x, ast.Attribute) and isinstance(x.value, ast.Name) and x.value.id == 'self' and x.attr != holder)
+    oattrs |= set(m.name for m in owner.body if isinstance(m, FN))
+    mmap = dict((m.name, '_%s_%s' % (K.name.strip('_'), m.name)) for m in kmeths)
+    if (kattrs - set(mmap)) & oattrs or set(mmap.values()) & oattrs:
+      continue
+    # constructor: parameters bound to the instantiation arguments
+    init_body = []
+    if kinit:
+      ki = kinit[0]
+      ps = params_of(ki)[1:]
+      call = site.value
+      if ki.args.vararg or ki.args.kwarg or ki.args.kwonlyargs or len(call.args) > len(ps) or any(isinstance(a, ast.Starred) for a in call.args):
+        continue
+      bind = dict(zip(ps, call.args))
+      for kw in call.keywords:
+        if kw.arg in ps and kw.arg not in bind:
+          bind[kw.arg] = kw.value
+      nd = len(ki.args.defaults)
+      for pn, dv in zip(ps[len(ps) - nd:], ki.args.defaults):
+        bind.setdefault(pn, dv)
+      if set(ps) - set(bind):
+        continue
+      if any(not isinstance(v, (ast.Name, ast.Constant, ast.Attribute)) for v in bind.values()):
+        continue
+      init_body = [_Subst(bind).visit(copy.deepcopy(st)) for st in _strip_doc(ki.body)]
+      if any(isinstance(x, (ast.Return, ast.Yield, ast.YieldFrom)) for st in init_body for x in ast.walk(st)):
+        continue
+    # rewrite
+    class R(ast.NodeTransformer):
+      def visit_Attribute(self, node):
+        self.generic_visit(node)
+        if isinstance(node.value, ast.Attribute) and node.value.attr == holder and isinstance(node.value.value, ast.Name) and node.value.value.id == 'self':
+          return ast.copy_location(ast.Attribute(value=ast.Name(id='self', ctx=ast.Load()), attr=mmap.get(node.attr, node.attr), ctx=node.ctx), node)
+        return node
+    for m in owner.body:
+      if isinstance(m, FN):
+        R().visit(m)
+    k = ometh.body.index(site)
+    ometh.body[k:k + 1] = init_body or [ast.copy_location(ast.Pass(), site)]
+    for m in kmeths:
+      for x in ast.walk(m):
+        if isinstance(x, ast.Attribute) and isinstance(x.value, ast.Name) and x.value.id == 'self' and x.attr in mmap:
+          x.attr = mmap[x.attr]
+      m.name = mmap[m.name]
+      owner.body.append(m)
+    tree.body.remove(K)
+    ast.fix_missing_locations(tree)
+    stats['classes_absorbed'] = stats.get('classes_absorbed', 0) + 1
+
+
+# ---------------------------------------------------------------- R7
+def absorb_state_classes(tree, rel, stats):
+  """A new private class that only bundles the state of one function call -- `__init__` storing its arguments / simple expressions, plus
+  methods -- and is instantiated inside a function (`obj = _K(args)` used as `obj.method` / `obj.attr`, or `_K(args).method` directly) is
+  turned back into locals and nested functions of that function (`self.x` -> the local x, rebinding methods get `nonlocal x`)."""
+  b = load_baseline()
+  known_cls = set(b.get('class_inventory', {}).get(rel, []))
+  if not b.get('class_inventory'):
+    return
+  for K in [s_ for s_ in list(tree.body) if isinstance(s_, ast.ClassDef)]:
+    if K.name in known_cls or not K.name.startswith('_') or K.decorator_list or K.keywords:
+      continue
+    if any(not (isinstance(x, ast.Name) and x.id == 'object') for x in K.bases):
+      continue
+    members = [m for m in K.body if not (isinstance(m, ast.Expr) and isinstance(m.value, ast.Constant))
+               and not (isinstance(m, ast.Assign) and len(m.targets) == 1 and isinstance(m.targets[0], ast.Name) and m.targets[0].id == '__slots__')]
+    if not members or not all(isinstance(m, FN) and not m.decorator_list for m in members):
+      continue
+    kinit = [m for m in members if m.name == '__init__']
+    kmeths = [m for m in members if m.name != '__init__']
+    if len(kinit) != 1 or not kmeths or any(m.name.startswith('__') for m in kmeths):
+      continue
+    ki = kinit[0]
+    if ki.args.vararg or ki.args.kwarg or ki.args.kwonlyargs or ki.args.defaults:
+      continue
+    fields = []
+    simple = True
+    for st in _strip_doc(ki.body):
+      if (isinstance(st, ast.Assign) and len(st.targets) == 1 and isinstance(st.targets[0], ast.Attribute) and isinstance(st.targets[0].value, ast.Name)
+          and st.targets[0].value.id == 'self' and not any(isinstance(x, ast.Name) and x.id == 'self' for x in ast.walk(st.value))):
+        fields.append((st.targets[0].attr, st.value))
+      else:
+        simple = False
+    if not simple or len(set(f for f, _ in fields)) != len(fields):
+      continue
+    fnames = set(f for f, _ in fields)
+    # methods touch only the fields (no other attribute of self, no use of self as a value)
+    okm = True
+    for m in kmeths:
+      selfname = params_of(m)[0] if params_of(m) else None
+      if selfname != 'self' or _is_static(m):
+        okm = False
+        break
+      for x in ast.walk(m):
+        if isinstance(x, ast.Name) and x.id == 'self':
+          par_ok = any(isinstance(p_, ast.Attribute) and p_.value is x and p_.attr in fnames for p_ in ast.walk(m))
+          if not par_ok:
+            okm = False
+    if not okm:
+      continue
+    uses = [n for n in ast.walk(tree) if isinstance(n, ast.Name) and n.id == K.name and not any(n is x for x in ast.walk(K))]
+    if not uses:
+      continue
+    encl = _enclosing_map(tree)
+    done_all = True
+    for use in uses:
+      G = encl.get(id(use), (None, None))[0]
+      if G is None or not _absorb_state_site(tree, G, K, ki, kmeths, fields, use):
+        done_all = False
+    if done_all:
+      tree.body.remove(K)
+      ast.fix_missing_locations(tree)
+      stats['classes_absorbed'] = stats.get('classes_absorbed', 0) + 1
+
+
+def _absorb_state_site(tree, G, K, ki, kmeths, fields, use):
+  # the statement of G (at any block depth, not in nested defs) that holds the instantiation
+  holder = None
+  for blk_owner in [G] + [n for n in own_nodes(G) if not isinstance(n, FN)]:
+    for fld in ('body', 'orelse', 'finalbody'):
+      blk = getattr(blk_owner, fld, None)
+      if isinstance(blk, list) and blk and isinstance(blk[0], ast.stmt):
+        for st in blk:
+          if isinstance(st, (ast.Assign, ast.Expr, ast.Return)) and any(x is use for x in ast.walk(st)):
+            holder = (blk, st)
+  if holder is None:
+    return False
+  blk, st = holder
+  call = [c for c in ast.walk(st) if isinstance(c, ast.Call) and c.func is use]
+  if len(call) != 1:
+    return False
+  call = call[0]
+  ps = params_of(ki)[1:]
+  if call.keywords or len(call.args) != len(ps) or any(isinstance(a, ast.Starred) for a in call.args):
+    return False
+  bind = dict(zip(ps, call.args))
+  gnames = _scope_names(G)
+  fnames = [f for f, _ in fields]
+  mnames = dict((m.name, m.name) for m in kmeths)
+  # how the instance is used
+  obj = None
+  if isinstance(st, ast.Assign) and st.value is call and len(st.targets) == 1 and isinstance(st.targets[0], ast.Name):
+    obj = st.targets[0].id
+    stores = [n for n in ast.walk(G) if isinstance(n, ast.Name) and n.id == obj and isinstance(n.ctx, ast.Store)]
+    if len(stores) != 1:
+      return False
+    for n in ast.walk(G):
+      if isinstance(n, ast.Name) and n.id == obj and isinstance(n.ctx, ast.Load):
+        par = [p_ for p_ in ast.walk(G) if isinstance(p_, ast.Attribute) and p_.value is n]
+        if not par or par[0].attr not in fnames + list(mnames):
+          return False
+  else:
+    par = [p_ for p_ in ast.walk(st) if isinstance(p_, ast.Attribute) and p_.value is call]
+    if len(par) != 1 or par[0].attr not in mnames:
+      return False
+  # local names for the fields: the argument name itself when the field just stores a stable argument, else the field name
+  local = {}
+  pre = []
+  mutated = set(x.attr for m in kmeths for x in ast.walk(m) if isinstance(x, ast.Attribute) and isinstance(x.ctx, (ast.Store, ast.Del))
+                and isinstance(x.value, ast.Name) and x.value.id == 'self')
+  for f, v in fields:
+    v2 = _Subst(bind).visit(copy.deepcopy(v))
+    if isinstance(v2, ast.Name) and v2.id in gnames and f not in mutated:
+      local[f] = v2.id
+    else:
+      nm = f.lstrip('_') or f
+      if nm in gnames and nm != obj:
+        return False
+      local[f] = nm
+      pre.append(ast.copy_location(ast.Assign(targets=[ast.Name(id=nm, ctx=ast.Store())], value=v2), st))
+  if len(set(local.values())) != len(local):
+    return False
+  defs = []
+  for m in kmeths:
+    mm = copy.deepcopy(m)
+    assigned = set()
+
+    class S(ast.NodeTransformer):
+      def visit_Attribute(self, node):
+        self.generic_visit(node)
+        if isinstance(node.value, ast.Name) and node.value.id == 'self' and node.attr in local:
+          if isinstance(node.ctx, (ast.Store, ast.Del)):
+            assigned.add(local[node.attr])
+          return ast.copy_location(ast.Name(id=local[node.attr], ctx=node.ctx), node)
+        return node
+    mm = S().visit(mm)
+    for a_ in ast.walk(mm):
+      if isinstance(a_, ast.AugAssign) and isinstance(a_.target, ast.Name) and a_.target.id in local.values():
+        assigned.add(a_.target.id)
+    own = set(params_of(m)[1:]) | set(n_ for n_, _ in local_defs_fp(m)[1])
+    if own & set(local.values()):
+      return False
+    mm.args.args = mm.args.args[1:] if not mm.args.posonlyargs else mm.args.args
+    if mm.args.posonlyargs:
+      mm.args.posonlyargs = mm.args.posonlyargs[1:]
+    body = _strip_doc(mm.body)
+    if assigned:
+      body = [ast.Nonlocal(names=sorted(assigned))] + body
+    mm.body = body or [ast.Pass()]
+    if mm.name in gnames and mm.name != obj:
+      mm.name = mm.name + '__k'
+    mnames[m.name] = mm.name
+    defs.append(mm)
+
+  class U2(ast.NodeTransformer):
+    def visit_Attribute(self, node):
+      self.generic_visit(node)
+      if (obj is not None and isinstance(node.value, ast.Name) and node.value.id == obj) or node.value is call:
+        if node.attr in local:
+          return ast.copy_location(ast.Name(id=local[node.attr], ctx=node.ctx), node)
+        if node.attr in mnames:
+          return ast.copy_location(ast.Name(id=mnames[node.attr], ctx=ast.Load()), node)
+      return node
+  k = blk.index(st)
+  for i_ in range(len(G.body)):       # in place: the statement lists keep their identity
+    G.body[i_] = U2().visit(G.body[i_])
+  if obj is not None:
+    blk[k:k + 1] = pre + defs
+  else:
+    blk[k:k] = pre + defs
+  ast.fix_missing_locations(G)
+  return True
+
+
 # ---------------------------------------------------------------- drivers
 def _note_stable_attrs(trees):
   from . import normalize
@@ -1632,6 +1915,12 @@ def restore_package(trees, stats):
       restore_lock_decorators(tree, rel, stats)
     except Exception as e:
       stats['decorator_error'] = repr(e)
+  for rel, tree in trees.items():
+    try:
+      absorb_helper_classes(tree, rel, stats)
+      absorb_state_classes(tree, rel, stats)
+    except Exception as e:
+      stats['absorb_error'] = repr(e)
   restore_renamed(trees, stats)
   for rel, tree in trees.items():
     try:
